@@ -26,6 +26,8 @@ def check(pid, tier, lines, gen_counts):
     if pid in ("C01", "C02", "C03", "C06", "C07", "C15"):
         cells = {tuple(k.split(":")[1:3]) for k in pref("cell:")}
         _need(out, "(version, level) cells built through the public API", len(cells), 160)
+    if pid in ("C01", "C06"):
+        _need(out, "every payload length 0..%d x 3 modes, fully decoded" % (1200 if thorough else 260), sum(v for k, v in t.items() if k.startswith("length:")), 3 * ((1200 if thorough else 260) + 1))
     if pid == "C02":
         _need(out, "(version, level) cells with a corruption pattern", len({tuple(k.split(":")[1:3]) for k in pref("corrupt:")}), 160)
     if pid in ("C02", "C03", "C04", "C06") and pref("tables:"):
